@@ -1,7 +1,9 @@
 #!/bin/sh
 # Must-fail corpus: applies each selftest/<ID>/*.patch to /repo, runs the check, reverts.
 # m*.patch must yield VIOLATION (exit 1); benign*.patch must stay quiet (exit 0).
+# The evidence file of the clean tree is saved and restored (mutated runs must not leave evidence behind).
 ID="$1"; rc=0
+[ -f /verif/evidence/$ID.json ] && cp /verif/evidence/$ID.json /tmp/.evidence.$ID.$$ 
 for p in /verif/selftest/$ID/*.patch; do
   n=$(basename $p .patch)
   git -C /repo apply "$p" || { echo "SELFTEST $ID $n: patch does not apply"; rc=1; continue; }
@@ -9,7 +11,9 @@ for p in /verif/selftest/$ID/*.patch; do
   git -C /repo checkout -- . 
   case "$n" in
     benign*) if [ $code -eq 0 ]; then echo "SELFTEST $ID $n: ok (quiet)"; else echo "SELFTEST $ID $n: FALSE ALARM"; echo "$out" | tail -5; rc=1; fi;;
-    *) if [ $code -eq 1 ] && echo "$out" | grep -q "^VIOLATION property=$ID"; then echo "SELFTEST $ID $n: ok (caught: $(echo "$out" | grep -c '^VIOLATION') obligations)"; else echo "SELFTEST $ID $n: MISSED (exit $code)"; echo "$out" | tail -5; rc=1; fi;;
+    *) if [ $code -eq 1 ] && echo "$out" | grep -q "^VIOLATION property=$ID"; then echo "SELFTEST $ID $n: ok (caught: $(echo "$out" | grep -c '^VIOLATION') obligations, $(echo "$out" | grep '^VIOLATION' | grep -vc no-failing-input-found) replayed on real code)"; else echo "SELFTEST $ID $n: MISSED (exit $code)"; echo "$out" | tail -5; rc=1; fi;;
   esac
 done
+[ -f /tmp/.evidence.$ID.$$ ] && mv /tmp/.evidence.$ID.$$ /verif/evidence/$ID.json
+rm -rf /verif/replays/$ID
 exit $rc
